@@ -123,6 +123,9 @@ def pred(case):
             return pred_forms(case)
         if it == 'seqarg':
             return pred_seq(case)
+        if it == 'lstsqcond':
+            ok_, d_ = pred_cond(case)
+            return (True if ok_ is None else ok_), d_
         if it == 'jsum':
             s, a, b = case['s'], case['alpha'], case['beta']
             x = np.asarray(case['x'], dtype=float)
@@ -641,6 +644,64 @@ def seq_cases(rng, reps, args=None, values=None, extra=None):
                 i += 1
                 if seq_form_applies((values or seq_values)(case), form):
                     out.append(case)
+    return out
+
+
+# ------------------------------------------------------------------------------------------------
+# lstsq on independent but ill-conditioned designs (sub-aperture masks, many modes)
+# ------------------------------------------------------------------------------------------------
+def cond_design(case):
+    """(modes (k, n, n), data with NaN outside the kept sub-aperture, synthesising coefficients, cond of the kept design matrix)"""
+    P, qp, J = _impl()
+    from prysm.coordinates import make_xy_grid, cart_to_polar
+    n, k = case['n'], case['k']
+    x, y = make_xy_grid(n, diameter=2)
+    r, t = cart_to_polar(x, y)
+    nms = [P.fringe_to_nm(j) for j in range(1, k + 1)]
+    modes = np.asarray(P.zernike_nm_seq(nms, r, t))
+    kind, cx, cy, rad = case['mask']
+    if kind == 'disc':
+        keep = np.hypot(x - cx, y - cy) <= rad
+    elif kind == 'strip':
+        keep = (np.abs(x - cx) <= rad) & (r <= 1)
+    else:
+        keep = (np.hypot(x - cx, y - cy) <= rad) & (np.hypot(x - cx, y - cy) >= 0.5 * rad)
+    c = np.asarray(case['c'], dtype=float)
+    data = np.tensordot(modes, c, axes=(0, 0))
+    data = np.array(data, dtype=float)
+    data[~keep] = np.nan
+    A = modes.reshape(k, -1)[:, keep.ravel()].T
+    sv = np.linalg.svd(A, compute_uv=False)
+    cond = float(sv[0] / sv[-1]) if sv[-1] > 0 else float('inf')
+    return modes, data, c, cond, int(keep.sum())
+
+
+COND_RANGE = (1e4, 1e9)
+
+
+def pred_cond(case):
+    """the fit must return the synthesising coefficients to ~ cond * eps: a backward-stable solve of the design matrix meets
+    1e3 * cond * eps, a solve of the normal equations (cond^2 * eps) does not"""
+    P, qp, J = _impl()
+    modes, data, c, cond, kept = cond_design(case)
+    if not (COND_RANGE[0] <= cond <= COND_RANGE[1]) or kept < 2 * len(c):
+        return None, f'design outside the family (cond {cond:.3g}, {kept} samples)'
+    got = np.asarray(P.lstsq(modes, data), dtype=float)
+    eps = np.finfo(float).eps
+    tol = 1e3 * cond * eps * max(1.0, float(np.max(np.abs(c))))
+    err = float(np.max(np.abs(got - c))) if got.shape == c.shape and np.isfinite(got).all() else float('inf')
+    return err <= tol, (f'lstsq on a sub-aperture ({kept} samples, {len(c)} Zernike terms, cond {cond:.3g}): max coefficient error {err:.3g}; '
+                        f'a stable solve of the design matrix stays below 1e3 * cond * eps = {tol:.3g}')
+
+
+def cond_cases(rng, thorough=False):
+    out = []
+    masks = [('disc', 0.3, 0.2, 0.45), ('disc', -0.4, 0.1, 0.35), ('disc', 0.0, 0.5, 0.4), ('strip', 0.5, 0.0, 0.25), ('strip', -0.3, 0.0, 0.3),
+             ('ring', 0.2, -0.2, 0.5), ('disc', 0.5, 0.5, 0.3), ('disc', 0.1, -0.1, 0.6)]
+    for n in ((48, 64) if not thorough else (48, 64, 96)):
+        for k in (15, 21, 28, 36):
+            for mk in masks:
+                out.append({'item': 'lstsqcond', 'n': n, 'k': k, 'mask': list(mk), 'c': [float(int(v)) / 16 for v in rng.integers(-32, 33, k)]})
     return out
 
 
@@ -1250,6 +1311,15 @@ def correspondence(ctx):
         ok, detail = pred(case)
         if not ok:
             ctx.pred_fail(case['item'], case, detail)
+    # ------------------------------------------------ fit inverts synthesis on ill-conditioned (sub-aperture) designs
+    for case in cond_cases(rng, ctx.thorough):
+        ok, detail = pred_cond(case)
+        if ok is None:
+            ctx.filtered_known['lstsqcond-design-outside-condition-range'] += 1
+            continue
+        ctx.case('lstsqcond', case, nontrivial=True, tag=f'k{case["k"]}/{case["mask"][0]}')
+        if not ok:
+            ctx.pred_fail('lstsqcond', case, detail)
     # ------------------------------------------------ every sequence argument in every container form
     for case in seq_cases(rng, ctx.scale(2, 12)):
         ctx.case('seqarg', case, nontrivial=True, tag=f'{case["routine"]}/{case["form"]}')
